@@ -318,25 +318,110 @@ theorem stopX_after_blanks (ws : Bytes) (ps : List Piece) (X : Bytes) (hn : sepN
     | line body => simp [sepBytes, Piece.bytes, stopX, headWS]; decide
     | block body => simp [sepBytes, Piece.bytes, stopX, headWS]; decide
 
+/-- two separators that differ only in the content of their blank runs -/
+def sameShape : List Piece → List Piece → Bool
+  | [], [] => true
+  | .blanks _ :: a, .blanks _ :: b => sameShape a b
+  | .line x :: a, .line y :: b => x == y && sameShape a b
+  | .block x :: a, .block y :: b => x == y && sameShape a b
+  | _, _ => false
+
+theorem sameShape_cons (p q : Piece) (ps qs : List Piece) (h : sameShape (p :: ps) (q :: qs) = true) :
+    sameShape ps qs = true ∧
+    ((∃ a b, p = .blanks a ∧ q = .blanks b) ∨ (∃ x, p = .line x ∧ q = .line x) ∨ (∃ x, p = .block x ∧ q = .block x)) := by
+  cases p with
+  | blanks a =>
+    cases q with
+    | blanks b => exact ⟨by simpa [sameShape] using h, Or.inl ⟨a, b, rfl, rfl⟩⟩
+    | line y => simp [sameShape] at h
+    | block y => simp [sameShape] at h
+  | line x =>
+    cases q with
+    | blanks b => simp [sameShape] at h
+    | line y =>
+      simp only [sameShape, Bool.and_eq_true, beq_iff_eq] at h
+      obtain ⟨e, h2⟩ := h
+      subst e
+      exact ⟨h2, Or.inr (Or.inl ⟨x, rfl, rfl⟩)⟩
+    | block y => simp [sameShape] at h
+  | block x =>
+    cases q with
+    | blanks b => simp [sameShape] at h
+    | line y => simp [sameShape] at h
+    | block y =>
+      simp only [sameShape, Bool.and_eq_true, beq_iff_eq] at h
+      obtain ⟨e, h2⟩ := h
+      subst e
+      exact ⟨h2, Or.inr (Or.inr ⟨x, rfl, rfl⟩)⟩
+
+theorem sameShape_nil_left (ps' : List Piece) (h : sameShape [] ps' = true) : ps' = [] := by
+  cases ps' with
+  | nil => rfl
+  | cons q qs => simp [sameShape] at h
+
+theorem sameShape_cons_left (p : Piece) (ps ps' : List Piece) (h : sameShape (p :: ps) ps' = true) : ∃ q qs, ps' = q :: qs := by
+  cases ps' with
+  | nil => cases p <;> simp [sameShape] at h
+  | cons q qs => exact ⟨q, qs, rfl⟩
+
+theorem sameShape_tame : ∀ (ps ps' : List Piece), sameShape ps ps' = true → ps.all Piece.tame = true → ps'.all Piece.tame = true := by
+  intro ps
+  induction ps with
+  | nil => intro ps' h _; rw [sameShape_nil_left ps' h]; rfl
+  | cons p ps ih =>
+    intro ps' h ht
+    obtain ⟨q, qs, rfl⟩ := sameShape_cons_left p ps ps' h
+    obtain ⟨h2, hk⟩ := sameShape_cons p q ps qs h
+    simp only [List.all_cons, Bool.and_eq_true] at ht ⊢
+    refine ⟨?_, ih qs h2 ht.2⟩
+    rcases hk with ⟨a, b, rfl, rfl⟩ | ⟨x, rfl, rfl⟩ | ⟨x, rfl, rfl⟩
+    · rfl
+    · exact ht.1
+    · exact ht.1
+
+theorem blanksTwice_shape (p q : Piece) (ps qs : List Piece) (h : sameShape (p :: ps) (q :: qs) = true) :
+    blanksTwice q qs = blanksTwice p ps := by
+  obtain ⟨h2, hk⟩ := sameShape_cons p q ps qs h
+  rcases hk with ⟨a, b, rfl, rfl⟩ | ⟨x, rfl, rfl⟩ | ⟨x, rfl, rfl⟩
+  · cases ps with
+    | nil => rw [sameShape_nil_left qs h2]; rfl
+    | cons p2 ps2 =>
+      obtain ⟨q2, qs2, rfl⟩ := sameShape_cons_left p2 ps2 qs h2
+      obtain ⟨_, hk2⟩ := sameShape_cons p2 q2 ps2 qs2 h2
+      rcases hk2 with ⟨a2, b2, rfl, rfl⟩ | ⟨x, rfl, rfl⟩ | ⟨x, rfl, rfl⟩ <;> rfl
+  · rfl
+  · rfl
+
+theorem sameShape_norm : ∀ (ps ps' : List Piece), sameShape ps ps' = true → sepNorm ps' = sepNorm ps := by
+  intro ps
+  induction ps with
+  | nil => intro ps' h; rw [sameShape_nil_left ps' h]
+  | cons p ps ih =>
+    intro ps' h
+    obtain ⟨q, qs, rfl⟩ := sameShape_cons_left p ps ps' h
+    have hb := blanksTwice_shape p q ps qs h
+    have ht := (sameShape_cons p q ps qs h).1
+    simp only [sepNorm, hb, ih qs ht]
+
 /-- a separator is rewritten into a separator with the same comments -/
 theorem sep_trim : ∀ (ps : List Piece) (X : Bytes), ps.all Piece.ok = true → ps.all Piece.tame = true → sepNorm ps = true →
     stopX X = true →
     ∃ ps', trimB (sepBytes ps ++ X) = sepBytes ps' ++ trimB X ∧ ps'.all Piece.ok = true ∧ sepComments ps' = sepComments ps ∧
-      HeadRel (sepBytes ps ++ X) (sepBytes ps' ++ trimB X) := by
+      HeadRel (sepBytes ps ++ X) (sepBytes ps' ++ trimB X) ∧ sameShape ps ps' = true := by
   intro ps
   induction ps with
   | nil =>
     intro X _ _ _ hX
-    exact ⟨[], by simp [sepBytes], rfl, rfl, Or.inl (by simpa [sepBytes] using (trimB_head X hX).1.symm)⟩
+    exact ⟨[], by simp [sepBytes], rfl, rfl, Or.inl (by simpa [sepBytes] using (trimB_head X hX).1.symm), rfl⟩
   | cons p ps ih =>
     intro X hok htame hnorm hX
     simp only [List.all_cons, Bool.and_eq_true] at hok htame
-    obtain ⟨ps', e1, o1, c1, r1⟩ := ih X hok.2 htame.2 (sepNorm_tail p ps hnorm) hX
+    obtain ⟨ps', e1, o1, c1, r1, sh1⟩ := ih X hok.2 htame.2 (sepNorm_tail p ps hnorm) hX
     cases p with
     | blanks ws =>
       have hF := stopX_after_blanks ws ps X hnorm hX
       obtain ⟨ws', t1, t2, t3, t4⟩ := trimB_ws ws (sepBytes ps ++ X) (by simpa [Piece.ok] using hok.1) hF
-      refine ⟨.blanks ws' :: ps', ?_, ?_, ?_, ?_⟩
+      refine ⟨.blanks ws' :: ps', ?_, ?_, ?_, ?_, by simpa [sameShape] using sh1⟩
       · simp only [sepBytes, Piece.bytes, List.append_assoc]
         rw [t1, e1]
       · simp [Piece.ok, t2, o1]
@@ -365,7 +450,7 @@ theorem sep_trim : ∀ (ps : List Piece) (X : Bytes), ps.all Piece.ok = true →
             simpa [headWS] using t2.1
     | line body =>
       have hsolid : solidB (45 :: 45 :: body) = true := by simpa [Piece.tame] using htame.1
-      refine ⟨.line body :: ps', ?_, ?_, ?_, ?_⟩
+      refine ⟨.line body :: ps', ?_, ?_, ?_, ?_, by simpa [sameShape] using sh1⟩
       · have : sepBytes (Piece.line body :: ps) ++ X = (45 :: 45 :: body) ++ (10 :: (sepBytes ps ++ X)) := by
           simp [sepBytes, Piece.bytes]
         rw [this, trimB_solid _ _ hsolid, trimB_cons_nonblank 10 _ (by decide), e1]
@@ -375,7 +460,7 @@ theorem sep_trim : ∀ (ps : List Piece) (X : Bytes), ps.all Piece.ok = true →
       · left; simp [sepBytes, Piece.bytes]
     | block body =>
       have hsolid := block_solid body (by simpa [Piece.tame] using htame.1)
-      refine ⟨.block body :: ps', ?_, ?_, ?_, ?_⟩
+      refine ⟨.block body :: ps', ?_, ?_, ?_, ?_, by simpa [sameShape] using sh1⟩
       · have : sepBytes (Piece.block body :: ps) ++ X = (47 :: 42 :: (body ++ [42, 47])) ++ (sepBytes ps ++ X) := by
           simp [sepBytes, Piece.bytes]
         rw [this, trimB_solid _ _ hsolid, e1]
@@ -518,23 +603,26 @@ theorem solidB_ne_nil (L : Bytes) (h : solidB L = true) : L ≠ [] := by
 theorem seq_trim (cls : CharClass) (tb : Tables) (hA : AsciiOK cls) (hops : opsNoWS tb = true) :
     ∀ items : List Item2, seqOK cls tb items = true → tameSeq cls tb items = true →
     ∃ items', trimB (flat2 items) = flat2 items' ∧ seqOK cls tb items' = true ∧
-      items'.map (·.1) = items.map (·.1) ∧ itemsComments items' = itemsComments items := by
+      items'.map (·.1) = items.map (·.1) ∧ itemsComments items' = itemsComments items ∧ tameSeq cls tb items' = true := by
   intro items
   induction items with
-  | nil => intro _ _; exact ⟨[], rfl, rfl, rfl, rfl⟩
+  | nil => intro _ _; exact ⟨[], rfl, rfl, rfl, rfl, rfl⟩
   | cons it rest ih =>
     intro hok htame
     simp only [seqOK, Bool.and_eq_true] at hok
     simp only [tameSeq, Bool.and_eq_true] at htame
     obtain ⟨⟨⟨⟨hlok, hsepok⟩, hfollow⟩, hstop⟩, hrestok⟩ := hok
     obtain ⟨⟨⟨hlt, hst⟩, hnorm⟩, hresttame⟩ := htame
-    obtain ⟨rest', e1, o1, m1, c1⟩ := ih hrestok hresttame
+    obtain ⟨rest', e1, o1, m1, c1, tm1⟩ := ih hrestok hresttame
     have hX := stopX_of_seqOK cls tb rest hrestok
-    obtain ⟨ps', e2, o2, c2, r2⟩ := sep_trim it.2 (flat2 rest) hsepok hst hnorm hX
+    obtain ⟨ps', e2, o2, c2, r2, sh2⟩ := sep_trim it.2 (flat2 rest) hsepok hst hnorm hX
     have hsolid : solidB it.1.bytes = true := by
       simp only [Lx.tame, Bool.and_eq_true] at hlt; exact hlt.1
     rw [e1] at e2 r2
-    refine ⟨(it.1, ps') :: rest', ?_, ?_, ?_, ?_⟩
+    refine ⟨(it.1, ps') :: rest', ?_, ?_, ?_, ?_, ?_⟩
+    rotate_right
+    · simp only [tameSeq, Bool.and_eq_true]
+      exact ⟨⟨⟨hlt, sameShape_tame _ _ sh2 hst⟩, by rw [sameShape_norm _ _ sh2]; exact hnorm⟩, tm1⟩
     · simp only [flat2]
       rw [trimB_solid _ _ hsolid, e2]
     · simp only [seqOK, Bool.and_eq_true]
@@ -554,8 +642,8 @@ theorem fixL001_keeps_tokens (cls : CharClass) (tb : Tables) (hA : AsciiOK cls) 
     ∃ toks cs toks' cs', tokenize cls tb (sepBytes lead ++ flat2 items) = .ok toks cs ∧
       tokenize cls tb (asBytes (Lint.fixL001 (asChars (sepBytes lead ++ flat2 items)))) = .ok toks' cs' ∧
       toks'.map Tok.key = toks.map Tok.key ∧ cs'.map Comment.key = cs.map Comment.key := by
-  obtain ⟨items', e1, o1, m1, c1⟩ := seq_trim cls tb hA hops items hok htame
-  obtain ⟨lead', e2, o2, c2, _⟩ := sep_trim lead (flat2 items) hlead hleadT hleadN (stopX_of_seqOK cls tb items hok)
+  obtain ⟨items', e1, o1, m1, c1, _⟩ := seq_trim cls tb hA hops items hok htame
+  obtain ⟨lead', e2, o2, c2, _, _⟩ := sep_trim lead (flat2 items) hlead hleadT hleadN (stopX_of_seqOK cls tb items hok)
   rw [e1] at e2
   have hlen : items'.length = items.length := by
     have := congrArg List.length m1
